@@ -1,4 +1,4 @@
 SPECIFICATION TraceSpec
-INVARIANT I04
+INVARIANT J04
 POSTCONDITION TraceAccepted
 CHECK_DEADLOCK FALSE
